@@ -222,6 +222,25 @@ def check_decl(kind, base_t, specs, res: JobResult, tier):
                                 issue("struct:dumps", f"aligned struct behind a dynamic member, unit {uv:#x}: dumps {d2.hex()} != input {data2.hex()} (+ zero padding)", v)
                     except Exception as e:  # noqa: BLE001
                         issue("raises", f"value {v}: {impl.exc_sig(e)} {e!r}", v, exc=type(e).__name__)
+    # the byte order is the one in effect when the data is read, also for an enum member of a structure that was compiled before the switch
+    if size > 1:
+        for compiled in (False, True):
+            csf = cstruct(endian="<")
+            try:
+                csf.load(text_of(kind, base, specs, "oneline") + "\nstruct SF { E e; E arr[2]; uint8 t; };", compiled=compiled)
+                for now in (">", "<", "!"):
+                    csf.endian = now
+                    bo_ = "little" if now == "<" else "big"
+                    for v in [x for x in vals if not (kind == "flag" and x < 0)][:6]:  # (negative flag values: known finding X, reported by the value sweep)
+                        b = v.to_bytes(size, bo_, signed=signed)
+                        sf = csf.SF(b + b + b + b"\x7e")
+                        res.evaluations += 1
+                        res.transitions += 2
+                        if (sf.e.value, [z.value for z in sf.arr], int(sf.t)) != (v, [v, v], 0x7E) or csf.E(b).value != v or sf.dumps() != b + b + b + b"\x7e":
+                            issue("value:not-preserved", f"loaded under '<', byte order now {now!r} (compiled={compiled}): {b.hex()} x3 parsed as {impl.norm(sf)}, scalar {csf.E(b).value}, dumps {sf.dumps().hex()}; expected {v}", v)
+                            break
+            except Exception as e:  # noqa: BLE001
+                issue("raises", f"endianness switch history (compiled={compiled}): {impl.exc_sig(e)} {e!r}", exc=type(e).__name__)
     # legacy parser twin of the numbering (named declarations; values may refer to earlier members)
     if base is not None and all(sp in ("auto", "=0", "=1", "=2", "=5", "=0x10", "=3", "=1<<3", "=PREV+1", "=PREV<<1", "=DUP", "=FIRST|4") for sp in specs):
         cs = cstruct()
@@ -232,6 +251,18 @@ def check_decl(kind, base_t, specs, res: JobResult, tier):
             res.states += 1
             if got != mem:
                 issue("numbering:legacy-parser", f"legacy parser: members {got}, C rule gives {mem}")
+            # ... and with a line comment (containing a comma) behind every member
+            commented = "\n".join(ln + ("  // first, second: note" if ln.strip() and not ln.strip().startswith(("enum", "flag", "}")) else "") for ln in text_of(kind, base, specs, "multiline").splitlines())
+            cs3 = cstruct()
+            cs3.load(commented + "\n", deftype=cstruct.DEF_LEGACY)
+            got3 = [(k, v.value) for k, v in cs3.E.__members__.items()]
+            if got3 != mem:
+                issue("numbering:legacy-parser", f"legacy parser, '//' comments behind the members: members {got3}, C rule gives {mem}")
+            cs4 = cstruct()
+            cs4.load(commented + "\n")
+            got4 = [(k, v.value) for k, v in cs4.E.__members__.items()]
+            if got4 != mem:
+                issue("numbering", f"'//' comments behind the members: members {got4}, C rule gives {mem}")
         except Exception as e:  # noqa: BLE001
             issue("load:legacy-raises", f"{impl.exc_sig(e)} {e!r}")
     if len(res.samples) < 2:
@@ -289,6 +320,20 @@ def cross_enum(tier) -> JobResult:
                         res.violations.append(Violation("numbering:several-declarations", "numbering:several-declarations", {"enums": list(order), "value": 0}, f"{text2!r}: {n} has members {got}, C rule gives {want[n]}"))
             except Exception as e:  # noqa: BLE001
                 res.violations.append(Violation("numbering:several-declarations-raises", "numbering:several-declarations", {"enums": list(order), "value": 0}, f"{text2!r}: {impl.exc_sig(e)} {e!r}"))
+    # a name re-bound to another enum: arrays (and fields) of it are arrays of the NEW enum
+    try:
+        csr = cstruct()
+        csr.load("enum RE : uint8 { OLD = 1 };")
+        first = csr.RE[2](b"\x01\x02")
+        csr.add_type("RE", csr._make_enum("RE", csr.uint16, {"NEW": 1}), replace=True)
+        second = csr.RE[2](b"\x01\x00\x02\x00")
+        third = csr.resolve("RE")[None](b"\x01\x00\x00\x00")
+        res.evaluations += 1
+        ok = [type(z) is csr.RE for z in second] == [True, True] and [z.value for z in second] == [1, 2] and second[0].name == "NEW" and [z.value for z in third] == [1] and first[0].name == "OLD"
+        if not ok:
+            res.violations.append(Violation("rebind:array-of-old-enum", "rebind:array", {"enums": ["RE"], "value": 1}, f"after re-binding RE (uint8 {{OLD}}) to a uint16 enum {{NEW}}: RE[2] parses {second!r}, RE[] parses {third!r}"))
+    except Exception as e:  # noqa: BLE001
+        res.violations.append(Violation("rebind:raises", "rebind:array", {"enums": ["RE"], "value": 1}, f"{impl.exc_sig(e)} {e!r}"))
     if cs1.ANON1 != 1 or cs1.ANON2.value != 2:
         res.violations.append(Violation("anonymous:values", "anonymous:values", {}, f"anonymous enum constants: {cs1.ANON1!r} {cs1.ANON2!r}"))
     res.samples.append({"cross": text})
